@@ -248,4 +248,12 @@ theorem saseCompare_fixed (l r : Value) (x y : Ext) (hl : numExt l = some x) (hr
   · subst hr; simp [saseCompare, cmpIntFloat_exact _ _ _ hl, Ext.cmp_rev x, Ordering.rev_rev]
   · simp [saseCompare, F.cmp_exact _ _ _ _ hl hr]
 
+theorem cmpValsSameKind_exact (op : CmpOp) (l r : Value) (x y : Ext)
+    (hl : numExt l = some x) (hr : numExt r = some y)
+    (hk : mixedKinds l r = false) :
+    cmpValsSameKind op l r = .val (.bool (op.holds (some (Ext.cmp x y)))) := by
+  cases l <;> simp [numExt] at hl <;> cases r <;> simp [numExt] at hr <;> simp [mixedKinds] at hk
+  · subst hl; subst hr; simp [cmpValsSameKind, i64cmp_exact]
+  · simp [cmpValsSameKind, F.cmp_exact _ _ _ _ hl hr]
+
 end Varpulis.Expr
